@@ -383,6 +383,7 @@ Definition msg_of_lerr (e : lerr) : msg :=
   match e with
   | ErrHexEscape => EInvalidHexEscape
   | ErrEscape => EInvalidEscape
+  | ErrNullIn q => if q =? 39 then ENullInChar else ENullInString
   | ErrNewlineIn q => if q =? 39 then ENewlineInChar else ENewlineInString
   | ErrEOFIn q => if q =? 39 then EEOFInChar else EEOFInString
   | ErrEOFInComment => Scan.EEOFInComment
@@ -471,9 +472,9 @@ Lemma quoted_loop_sim : forall fuel b d s cs q k sp bf fl,
   Rel b d s cs true sp bf fl -> (length cs < fuel)%nat ->
   match l_quoted fuel q cs with
   | QOk lit rest =>
-    exists s', quoted_loop fuel q k (msg_of_lerr (ErrNewlineIn q)) (msg_of_lerr (ErrEOFIn q)) s = Ok (k, s') /\
+    exists s', quoted_loop fuel q k (msg_of_lerr (ErrNullIn q)) (msg_of_lerr (ErrNewlineIn q)) (msg_of_lerr (ErrEOFIn q)) s = Ok (k, s') /\
                Rel b d s' rest true sp (bf ++ lit) fl
-  | QErr e => exists l, quoted_loop fuel q k (msg_of_lerr (ErrNewlineIn q)) (msg_of_lerr (ErrEOFIn q)) s = Error l (msg_of_lerr e)
+  | QErr e => exists l, quoted_loop fuel q k (msg_of_lerr (ErrNullIn q)) (msg_of_lerr (ErrNewlineIn q)) (msg_of_lerr (ErrEOFIn q)) s = Error l (msg_of_lerr e)
   | QFuel => False
   end.
 Proof.
@@ -495,7 +496,8 @@ Proof.
       * destruct He as (l & A). rewrite A. simpl. eauto.
     + destruct (fst a =? q) eqn:Eq.
       * apply Rel_next_ub in H. eauto.
-      * destruct (fst a =? 10) eqn:E10. { eauto. }
+      * destruct (fst a =? 0) eqn:E0. { eauto. }
+        destruct (fst a =? 10) eqn:E10. { eauto. }
         apply Rel_next_ub in H.
         assert (Lr : (length r < fuel)%nat) by (simpl in L; lia).
         specialize (IHfuel _ _ _ _ q k _ _ _ H Lr).
@@ -514,6 +516,7 @@ Proof.
     destruct (l_quoted fuel q r') as [l2 r2| |] eqn:Eq; simpl in H; try discriminate.
     inversion H; subst. apply IHfuel in Eq. simpl. lia. }
   destruct (fst a =? q). { inversion H; subst. simpl. lia. }
+  destruct (fst a =? 0); [discriminate|].
   destruct (fst a =? 10); [discriminate|].
   destruct (l_quoted fuel q r) as [l2 r2| |] eqn:Eq; simpl in H; try discriminate.
   inversion H; subst. apply IHfuel in Eq. simpl. lia.
@@ -631,6 +634,7 @@ Proof.
     destruct (l_quoted fuel q r') as [l2 r2| |] eqn:Eq; simpl in H; try discriminate.
     inversion H; subst. apply IHfuel in Eq. apply suffix_cons. eapply suffix_trans; eauto. }
   destruct (fst a =? q). { inversion H; subst. apply suffix_cons, suffix_refl. }
+  destruct (fst a =? 0); [discriminate|].
   destruct (fst a =? 10); [discriminate|].
   destruct (l_quoted fuel q r) as [l2 r2| |] eqn:Eq; simpl in H; try discriminate.
   inversion H; subst. apply IHfuel in Eq. now apply suffix_cons.
@@ -715,7 +719,7 @@ Proof. intros X p (s' & -> & HR) HS. unfold ret. now apply sk_tok. Qed.
 Lemma sk_quote : forall fuel q k pre s1 (cs : list achar) aq,
   Rel b d s1 (aq :: cs) true sp pre fl -> suffix (aq :: cs) (a :: r) -> (length cs < fuel)%nat ->
   sk_post b d fl (a :: r)
-    (bind (quoted_loop fuel q k (msg_of_lerr (ErrNewlineIn q)) (msg_of_lerr (ErrEOFIn q)) (nextchar s1)) FIN)
+    (bind (quoted_loop fuel q k (msg_of_lerr (ErrNullIn q)) (msg_of_lerr (ErrNewlineIn q)) (msg_of_lerr (ErrEOFIn q)) (nextchar s1)) FIN)
     (l_quote fuel q k (pre ++ [fst aq]) sp (a :: r) cs).
 Proof.
   intros fuel q k pre s1 cs aq HR HS HL.
